@@ -253,6 +253,26 @@ pub fn record(pool_path: &str, w: &mut dyn Write, seed: u64, scale: usize) {
             emit("convex_hull_big#0".into(), dg(guard(|| mbig.convex_hull()), |d, p| d.poly(p)), json!({}));
             emit("udt_big#0".into(), dg(guard(|| TriangulateDelaunay::unconstrained_triangulation(&mbig.0.iter().map(|p| p.0).collect::<LineString<f64>>()).unwrap_or_default()), |d, t| d.tris(t)), json!({}));
         }
+        // ---- many overlapping polygons with DECIMAL (non-dyadic) coordinates: what a parallel or chunked overlay would round
+        // differently depending on how the input is split (integer / dyadic inputs are reproduced exactly by any split)
+        {
+            for (ri, nq) in [(0usize, 20usize), (1, 48), (2, 130)] {
+                let quads: Vec<Polygon<f64>> = (0..nq).map(|_| {
+                    let (cx0, cy0) = (rng.gen_range(0..400) as f64 / 10.0, rng.gen_range(0..400) as f64 / 10.0);
+                    let r = |rng: &mut StdRng| rng.gen_range(3..60) as f64 / 10.0;
+                    let (r0, r1, r2, r3) = (r(&mut rng), r(&mut rng), r(&mut rng), r(&mut rng));
+                    Polygon::new(LineString::new(vec![Coord { x: cx0 - r0, y: cy0 - r1 * 0.7 }, Coord { x: cx0 + r1, y: cy0 - r2 * 0.3 }, Coord { x: cx0 + r2 * 0.9, y: cy0 + r3 },
+                                                      Coord { x: cx0 - r3 * 0.1, y: cy0 + r0 * 1.1 }, Coord { x: cx0 - r0, y: cy0 - r1 * 0.7 }]), vec![])
+                }).collect();
+                let mq = MultiPolygon::new(quads.clone());
+                emit(format!("decimal_unary_union#{ri}"), dg(guard(|| unary_union(quads.iter())), |d, m| d.mp(m)), json!({}));
+                emit(format!("decimal_unary_union_mp#{ri}"), dg(guard(|| unary_union(&mq)), |d, m| d.mp(m)), json!({}));
+                let (h1, h2) = (MultiPolygon::new(quads[..nq / 2].to_vec()), MultiPolygon::new(quads[nq / 2..].to_vec()));
+                emit(format!("decimal_union#{ri}"), dg(guard(|| h1.union(&h2)), |d, m| d.mp(m)), json!({}));
+                emit(format!("decimal_intersection#{ri}"), dg(guard(|| h1.intersection(&h2)), |d, m| d.mp(m)), json!({}));
+                emit(format!("decimal_xor#{ri}"), dg(guard(|| h1.xor(&h2)), |d, m| d.mp(m)), json!({}));
+            }
+        }
         // ---- rayon iterators over the Multi* types: collect must keep input order
         {
             let g = grid(40, 0.25, 0.5);
